@@ -1,6 +1,7 @@
 package main
 
 import (
+	"encoding/base64"
 	"encoding/json"
 	"fmt"
 	"sort"
@@ -128,6 +129,10 @@ func runJWT(kind string, doc *J, minimize bool, note string) {
 			"vc": string(vcb), "rebuilt": string(b2)}
 		rec.Class = fmt.Sprintf("jwt:%v:%s", minimize, shapeOf(doc))
 
+		if v := doc.get("issuanceDate"); v != nil && v.K == jStr && !strings.HasSuffix(v.S, "Z") {
+			rec.Dist = append(rec.Dist, "jwt:issuanceDate-with-offset-or-no-zone")
+		}
+
 		// time conversions (Go's time package) handed to the model
 		var secs, fmts []string
 
@@ -216,6 +221,144 @@ func runJWT(kind string, doc *J, minimize bool, note string) {
 					fail("jwt:not-minimized:"+k, string(vcb))
 				}
 			}
+		}
+	}()
+
+	tr.Put(rec)
+}
+
+// ---------- the remaining corners of the JWT mapping ----------
+
+// runJWTMultiSubject: the JWT form is defined for one subject: a credential with several subjects must be refused
+// (not encoded with one of them).
+func runJWTMultiSubject(kind string, doc *J) {
+	data := []byte(doc.JSON())
+	rec := &hx.Record{Kind: kind, Case: caseDesc{Kind: "jwtmulti", Doc: data}, Oracle: "ok", Class: "jwt-multi:" + shapeOf(doc),
+		Dist: []string{"jwt", "jwt:several-subjects"}}
+
+	func() {
+		defer func() {
+			if p := recover(); p != nil {
+				rec.Oracle, rec.Sig, rec.Detail = "fail", "panic:jwt", fmt.Sprint(p)
+			}
+		}()
+
+		r1 := doVC(data, false)
+		if r1.err != nil {
+			rec.Trivial = true
+			return
+		}
+
+		for _, min := range []bool{false, true} {
+			claims, err := r1.vc.JWTClaims(min)
+			rec.Observed = map[string]string{"err": fmt.Sprint(err)}
+
+			if err == nil {
+				rec.Oracle, rec.Sig, rec.Detail = "fail", "jwt:several-subjects-encoded", fmt.Sprintf("sub=%q", claims.Subject)
+			}
+		}
+	}()
+
+	tr.Put(rec)
+}
+
+// runJWTVP: Presentation.JWTClaims(audience, minimize) -> unsecured JWT -> ParsePresentation.
+func runJWTVP(kind string, doc *J, aud []string, minimize bool) {
+	data := []byte(doc.JSON())
+	rec := &hx.Record{Kind: kind, Case: caseDesc{Kind: "jwtvp", Doc: data, Minimize: minimize, Note: strings.Join(aud, " ")}, Oracle: "ok",
+		Dist: []string{"jwtvp", fmt.Sprintf("jwtvp:aud=%d", len(aud)), fmt.Sprintf("jwtvp:minimize=%v", minimize)}}
+
+	fail := func(sig, detail string) {
+		if rec.Oracle == "ok" {
+			rec.Oracle, rec.Sig, rec.Detail = "fail", sig, detail
+		}
+	}
+
+	func() {
+		defer func() {
+			if p := recover(); p != nil {
+				fail("panic:jwtvp", fmt.Sprint(p))
+			}
+		}()
+
+		r1 := doVP(data)
+		if r1.err != nil {
+			rec.Trivial, rec.Class = true, "jwtvp-parse-error"
+			return
+		}
+
+		rec.Class = fmt.Sprintf("jwtvp:%v:%d:%s", minimize, len(aud), shapeOf(doc))
+
+		claims, err := r1.vp.JWTClaims(aud, minimize)
+		if err != nil {
+			fail("jwtvp:claims", err.Error())
+			return
+		}
+
+		// registered claims: iss = holder, jti = id, aud = the audience given
+		holder, id := "", ""
+		if v := r1.out.get("holder"); v != nil && v.K == jStr {
+			holder = v.S
+		}
+
+		if v := r1.out.get("id"); v != nil && v.K == jStr {
+			id = v.S
+		}
+
+		if claims.Issuer != holder || claims.ID != id {
+			fail("jwtvp:registered-claims", fmt.Sprintf("iss=%q jti=%q vs holder=%q id=%q", claims.Issuer, claims.ID, holder, id))
+		}
+
+		if strings.Join([]string(claims.Audience), " ") != strings.Join(aud, " ") {
+			fail("jwtvp:aud", fmt.Sprintf("%v vs %v", claims.Audience, aud))
+		}
+
+		ujwt, err := claims.MarshalUnsecuredJWT()
+		if err != nil {
+			fail("jwtvp:marshal", err.Error())
+			return
+		}
+
+		// the audience travels in the token
+		if parts := strings.Split(ujwt, "."); len(parts) >= 2 {
+			if pb, e := base64.RawURLEncoding.DecodeString(parts[1]); e == nil {
+				if pj, e2 := parseJ(pb); e2 == nil {
+					a := pj.get("aud")
+					got := []string{}
+
+					if a != nil && a.K == jStr {
+						got = []string{a.S}
+					} else if a != nil && a.K == jArr {
+						for _, x := range a.A {
+							got = append(got, x.S)
+						}
+					}
+
+					if strings.Join(got, " ") != strings.Join(aud, " ") {
+						fail("jwtvp:aud-not-in-token", string(pb))
+					}
+				}
+			}
+		}
+
+		vp2, err := verifiable.ParsePresentation([]byte(ujwt), verifiable.WithPresDisabledProofCheck(), verifiable.WithDisabledJSONLDChecks(),
+			verifiable.WithPresJSONLDDocumentLoader(loader))
+		if err != nil {
+			fail("jwtvp:decode-refused", err.Error())
+			return
+		}
+
+		b2, err := vp2.MarshalJSON()
+		if err != nil {
+			fail("jwtvp:remarshal", err.Error())
+			return
+		}
+
+		rebuilt, _ := parseJ(b2)
+		rec.Observed = map[string]string{"rebuilt": string(b2), "iss": claims.Issuer, "jti": claims.ID}
+
+		if d := diffMembers(normVC(r1.out), normVC(rebuilt)); len(d) > 0 {
+			fail("jwtvp:claims-differ:"+d[0], strings.Join(d, ","))
 		}
 	}()
 
